@@ -26,7 +26,7 @@ COMPONENTS = {'real': ['yldprolog.engine Variable/Functor get_value and to_pytho
               'stub': ['consumer holding the open unifications and saved values'],
               'oracle': ['substitution-stack model (ypsim.terms) rendered through the documented to_python mapping']}
 REQUIRED_PROBES = ('term_built_and_kept', 'fault_recursion_inside_get_value', 'fault_recursion_inside_to_python', 'save_ground_compound', 'save_outer_older_than_inner', 'read_after_pop', 'program_collect_idiom', 'program_findall', 'program_assert',
-                   'pop_close', 'pop_drop', 'pop_resume', 'pop_throw', 'side_advanced_or_ended_while_younger_generators_suspended', 'program_bounded_projection_fault')
+                   'pop_close', 'pop_drop', 'pop_resume', 'pop_throw', 'finished_generator_closed_or_dropped_later', 'saved_value_used_as_goal', 'side_advanced_or_ended_while_younger_generators_suspended', 'program_bounded_projection_fault')
 
 
 def ground_term(rng, depth):
@@ -107,8 +107,14 @@ def gen(seed, tier):
         elif k < 0.14:
             # a compound term over the pool variables built now and read at later events (after bindings changed)
             ops.append(['MKTERM', TM.J(TM.rnd_term(rng, nv, 2, p_leaf=0.2, p_var=0.7, lists=rng.random() < 0.4))])
+        elif k < 0.17:
+            # a unification that already ended by exhaustion is closed / dropped only now (a no-op for a generator)
+            ops.append(['REAP', rng.randrange(4), rng.choice(('close', 'drop'))])
+        elif k < 0.2:
+            # a saved value is used as a goal (closure) by call/N; it must still denote what it denoted
+            ops.append(['ASGOAL', rng.randrange(6), rng.randrange(1, 3)])
         elif k < 0.3:
-            ops.append(['POP', rng.choice(('close', 'drop', 'resume', 'throw'))])
+            ops.append(['POP', rng.choice(('close', 'drop', 'resume', 'resume', 'throw'))])
         elif k < 0.55:
             t = ['v', rng.randrange(nv)] if rng.random() < 0.7 else TM.J(TM.rnd_term(rng, nv, 2, lists=False))
             ops.append(['SAVE', t])
@@ -148,6 +154,10 @@ def show_op(op):
         return 'SAVE %s' % TM.show(TM.T(op[1]))
     if op[0] == 'MKTERM':
         return 'MKTERM %s (built now, read at every later event)' % TM.show(TM.T(op[1]))
+    if op[0] == 'REAP':
+        return 'REAP %s a unification generator that ended earlier by exhaustion (#%d)' % (op[2], op[1])
+    if op[0] == 'ASGOAL':
+        return 'ASGOAL call/%d with saved value #%d as the goal (closure), abandoned after its first answer if any' % (op[2] + 1, op[1])
     if op[0] == 'SIDE':
         return 'SIDE start an independent enumeration sf(A,B) on %s and stop at its first answer' % ('another engine' if op[1] else 'this engine')
     if op[0] == 'SIDESTEP':
@@ -201,6 +211,7 @@ def execute(plan):
     stack = []
     saved = []          # (value, to_python at save time (model), description)
     kept_terms = []     # (model term, engine term) built by MKTERM
+    finished = []       # unification generators that ended by exhaustion and are still referenced by the consumer
     sides = []          # [task, (A, B), row index] independent enumerations of sf/2
     SF = [('one', 1), ('two', 2), ('three', 3)]
     side_engines = {}
@@ -313,6 +324,9 @@ def execute(plan):
                     continue
                 task, s_before = stack.pop()
                 end_task(task, op[1])
+                if op[1] == 'resume' and len(finished) < 4:
+                    finished.append(task)
+                task = None
                 log.count('pop_' + op[1])
                 s = s_before
                 log.ev('pop', op[1])
@@ -321,6 +335,36 @@ def execute(plan):
                     break
                 if saved:
                     log.count('read_after_pop')
+            elif kind == 'REAP':
+                if not finished:
+                    log.ev('noop')
+                    continue
+                t_ = finished.pop(op[1] % len(finished))
+                if op[2] == 'close':
+                    t_.gen.close()
+                t_.gen = None
+                t_ = None
+                log.count('finished_generator_closed_or_dropped_later')
+                log.ev('reap', op[2])
+            elif kind == 'ASGOAL':
+                cands_ = [x for x in saved if hasattr(x[0], '_args')]
+                if not cands_:
+                    log.ev('noop')
+                    continue
+                val_ = cands_[op[1] % len(cands_)][0]
+                extra_ = [yp.atom('z'), yp.variable()][:op[2]]
+                outcome_ = 'none'
+                try:
+                    g_ = yp.query('call', [val_] + extra_)
+                    for _ in g_:
+                        outcome_ = 'answer'
+                        break
+                    g_.close()
+                except Exception as e:
+                    outcome_ = type(e).__name__
+                g_ = None
+                log.count('saved_value_used_as_goal')
+                log.ev('asgoal', op[2], outcome_)
             elif kind == 'MKTERM':
                 t = pool.norm(TM.T(op[1]))
                 if len(kept_terms) < 4 and t[0] == 'f':
@@ -462,6 +506,14 @@ def run_program(prog, log):
         if raw_has_variable(val):
             log.violation('collected-answer-contains-variable', {'program': prog['source'], 'idiom': '[v.get_value() for _ in q]'})
             return
+    # a collected answer used as a closure by call/N (whatever that call does) still denotes the same term afterwards
+    for val in collected:
+        if hasattr(val, '_args'):
+            try:
+                for _ in yp.query('call', [val, yp.atom('z'), yp.variable()]):
+                    break
+            except Exception:
+                pass
     if [pyj(to_python(v)) for v in collected] != [pyj(w) for w in want]:
         log.violation('collected-answer-changed', {'program': prog['source'], 'after_query': [pyj(to_python(v)) for v in collected], 'at_answer': [pyj(w) for w in want]})
         return
